@@ -90,6 +90,7 @@ class Cfg:
         self.risky_literals = 0       # how many near-miss literals (C10) a spec may contain
         self.doc_escapes = False      # doc words like C:\\users (\\u... in generated docstrings)
         self.omitted = True           # Omitted(...) annotations (change what is encoded)
+        self.union_chain_bias = False  # C07: more and longer union inheritance chains
         self.nullable_aliases = False  # `alias N = String?`: stone treats fields of such a type
         #                                inconsistently (DESIGN 5) -> only the frontend checks enable it
         for k, v in kw.items():
@@ -280,6 +281,7 @@ class Builder:
         for ns in self.api['namespaces']:
             self.fill_members(ns)
         self.shape_permission_family()
+        self.tags_named_like_fields()
         self.repair_inhabited()
         if cfg.routes:
             if cfg.schema:
@@ -311,7 +313,8 @@ class Builder:
         g, cfg = self.g, self.cfg
         n = g.int(cfg.min_types, cfg.max_types)
         for _ in range(n):
-            kind = g.weighted([(45, 'struct'), (30, 'union'), (25, 'alias')])
+            kind = g.weighted([(35, 'struct'), (50, 'union'), (15, 'alias')] if cfg.union_chain_bias and g.p(50)
+                              else [(45, 'struct'), (30, 'union'), (25, 'alias')])
             name = self.new_type_name(ns)
             if kind == 'struct':
                 d = {'k': 'struct', 'name': name, 'parent': None, 'doc': None, 'fields': [],
@@ -576,14 +579,15 @@ class Builder:
                     d['parent'] = (n, p['name'])
                     if p.get('subtypes'):
                         self.add_subtype(p, d)
-            if d['k'] == 'union' and g.p(30):
+            if d['k'] == 'union' and g.p(70 if self.cfg.union_chain_bias else 30):
                 # test_union_semantics: a closed union cannot extend an open one
                 cands = [(n, p) for n, p in self.visible(ns, ('union',))
                          if self.rank[(n, p['name'])] < self.rank[(me_ns, d['name'])]
                          and self.depth_of(n, p) < 3
                          and (not d['closed'] or not self.idx.is_open(n, p))]
                 if cands:
-                    n, p = g.choice(cands)
+                    deep = [c for c in cands if c[1].get('parent')]
+                    n, p = g.choice(deep if deep and self.cfg.union_chain_bias and g.p(60) else cands)
                     d['parent'] = (n, p['name'])
         # choose enumerating roots: LR "Struct Polymorphism": root has no parent, lists its
         # subtypes (all of them), subtypes are leaves
@@ -618,6 +622,36 @@ class Builder:
             if a.get('subtypes'):
                 taken |= {t for t, _ in a['subtypes']['items']}
         return taken
+
+    def tags_named_like_fields(self):
+        """Under union_struct_bias: name some struct-valued union tags after a field of the struct they
+        carry (a plain struct member is flattened next to `.tag`, so its keys share an object with the
+        tag's own name - json_serializer.rst "Union")."""
+        g = self.g
+        if not self.cfg.union_struct_bias:
+            return
+        for n, d in self.idx.types(('union',)):
+            if d.get('patch'):
+                continue
+            for tg in d['tags']:
+                t = tg['type']
+                while t is not None and t[0] == 'nullable':
+                    t = t[1]
+                if t is None or t[0] != 'ref' or not g.p(25):
+                    continue
+                sd = self.idx.get(t[1], t[2])
+                if sd['k'] != 'struct':
+                    continue
+                taken = set()
+                stack = [self.idx.chain(n, d)[0]]      # the whole union family, from its root
+                while stack:
+                    nn, dd = stack.pop()
+                    taken |= {x['name'] for x in dd.get('tags', [])}
+                    stack += self.idx.children(nn, dd['name'])
+                names = [f['name'] for _, _, f in self.idx.struct_all_fields(t[1], sd)
+                         if f['name'] not in taken and f['name'] not in RESERVED_SNAKE and f['name'] != 'other']
+                if names:
+                    tg['name'] = g.choice(names)
 
     def shape_permission_family(self):
         """Under annot_bias: give one struct that has descendants two or more fields with *different*
